@@ -369,7 +369,14 @@ class Disassembler:
             return template.format(self.op_formatter.format_word(address, base)), 2
         return self._defb(a, 2)
 
+    def port_arg(self, template, a, base):
+        if base == 'm':
+            base = DEFAULT_BASE # The assembler accepts no negative port number
+        return template.format(self.op_formatter.format_byte(self.snapshot[(a + 1) & 65535], base)), 2
+
     def rst_arg(self, template, a, base):
+        if base == 'm':
+            base = DEFAULT_BASE # The assembler accepts no negative RST address
         return template[:4] + self.op_formatter.format_byte(int(template[4:]), base), 1
 
     def defb_items(self, data, sublengths):
@@ -657,7 +664,7 @@ class Disassembler:
             0xD0: (self.no_arg, 'RET NC'),
             0xD1: (self.no_arg, 'POP DE'),
             0xD2: (self.word_arg, 'JP NC,{}'),
-            0xD3: (self.byte_arg, 'OUT ({}),A'),
+            0xD3: (self.port_arg, 'OUT ({}),A'),
             0xD4: (self.word_arg, 'CALL NC,{}'),
             0xD5: (self.no_arg, 'PUSH DE'),
             0xD6: (self.byte_arg, 'SUB {}'),
@@ -665,7 +672,7 @@ class Disassembler:
             0xD8: (self.no_arg, 'RET C'),
             0xD9: (self.no_arg, 'EXX'),
             0xDA: (self.word_arg, 'JP C,{}'),
-            0xDB: (self.byte_arg, 'IN A,({})'),
+            0xDB: (self.port_arg, 'IN A,({})'),
             0xDC: (self.word_arg, 'CALL C,{}'),
             0xDD: (self.dd_arg, ''),
             0xDE: (self.byte_arg, 'SBC A,{}'),
